@@ -12,6 +12,7 @@ CONSTANTS Conns, Reqs, ConnOf,   \* ConnOf[r]: the connection request r is sent 
           N,                     \* pool size; 0 = no pool (one goroutine per request)
           Q,                     \* job queue capacity
           LateRelease,
+          Calls,                 \* the calls of Shutdown on this server (overlapping or one after the other), each with its own context
           RT                     \* a read timeout is configured (FALSE = default: a blocked read is only woken by data or by the close notification)
 VARIABLES st,        \* per request: "unsent" | "sent" | "read" | "running" | "invoked" | "written"
           inbuf,     \* per connection: requests sent and not yet read, FIFO
@@ -23,15 +24,17 @@ VARIABLES st,        \* per request: "unsent" | "sent" | "read" | "running" | "i
           isClosed,  \* server flag set by Shutdown
           apc,       \* accept loop: "accepting" | "exited" | "released"
           jobQ, dpc, dj,   \* pool: queue, dispatcher pc ("sel" | "hold" | "stopping" | "dead"), held job
-          spc,       \* Shutdown call: "idle" | "polling" | "returned"
-          expired,   \* Shutdown's context has expired
+          spc,       \* per Shutdown call: "idle" | "polling" | "returned"
+          expired,   \* per Shutdown call: its context has expired
           lateWrite  \* ghost: a response was written after its connection had been closed
 vars == <<st, inbuf, hr, rpc, sock, numInvoke, notified, isClosed, apc, jobQ, dpc, dj, spc, expired, lateWrite>>
 Running == {r \in Reqs : st[r] \in {"running", "invoked"}}
 Init == /\ st = [r \in Reqs |-> "unsent"] /\ inbuf = [c \in Conns |-> <<>>]
         /\ hr = [c \in Conns |-> 0] /\ rpc = [c \in Conns |-> "reading"] /\ sock = [c \in Conns |-> "open"] /\ numInvoke = [c \in Conns |-> 0] /\ notified = [c \in Conns |-> FALSE]
         /\ isClosed = FALSE /\ apc = "accepting" /\ jobQ = <<>> /\ dpc = "sel" /\ dj = 0
-        /\ spc = "idle" /\ expired = FALSE /\ lateWrite = FALSE
+        /\ spc = [k \in Calls |-> "idle"] /\ expired = [k \in Calls |-> FALSE] /\ lateWrite = FALSE
+Polling == \E k \in Calls : spc[k] = "polling"          \* some call of Shutdown is in its poll loop (CloseIdles every 500 ms)
+Begun == \E k \in Calls : spc[k] # "idle"
 
 \* ---- client
 ClientSend(r) == /\ st[r] = "unsent" /\ rpc[ConnOf[r]] \in {"reading", "handing"} /\ sock[ConnOf[r]] = "open" /\ ~notified[ConnOf[r]]
@@ -90,26 +93,28 @@ PoolDead == /\ dpc = "stopping" /\ Running = {} /\ dpc' = "dead" /\ apc' = "rele
 NoPoolReleased == /\ N = 0 /\ apc = "exited" /\ apc' = "released"
                   /\ UNCHANGED <<hr, st, inbuf, rpc, sock, numInvoke, notified, isClosed, jobQ, dpc, dj, spc, expired, lateWrite>>
 \* ---- Shutdown(ctx)
-ShutdownStart == /\ spc = "idle" /\ spc' = "polling" /\ isClosed' = TRUE
+\* every call sets isClosed (again), pokes the listener and enters its own poll loop: a call that finds the server already
+\* closing is a call like any other
+ShutdownStart(k) == /\ spc[k] = "idle" /\ spc' = [spc EXCEPT ![k] = "polling"] /\ isClosed' = TRUE
                  /\ UNCHANGED <<hr, st, inbuf, rpc, sock, numInvoke, notified, apc, jobQ, dpc, dj, expired, lateWrite>>
 \* the poller (OnShutdown / CloseIdles): once the accept loop has exited, the close message goes to every open connection
-Notify == /\ spc = "polling" /\ apc # "accepting" /\ \E c \in Conns : ~notified[c] /\ rpc[c] # "closed"
+Notify == /\ Polling /\ apc # "accepting" /\ \E c \in Conns : ~notified[c] /\ rpc[c] # "closed"
           /\ notified' = [c \in Conns |-> notified[c] \/ rpc[c] # "closed"]
           /\ UNCHANGED <<hr, st, inbuf, rpc, sock, numInvoke, isClosed, apc, jobQ, dpc, dj, spc, expired, lateWrite>>
 \* CloseIdles also closes connections it judges idle (no handler outstanding, no recent read)
-PollerClose(c) == /\ spc = "polling" /\ notified[c] /\ sock[c] = "open" /\ numInvoke[c] = 0
+PollerClose(c) == /\ Polling /\ notified[c] /\ sock[c] = "open" /\ numInvoke[c] = 0
                   /\ sock' = [sock EXCEPT ![c] = "closed"]
                   /\ UNCHANGED <<hr, st, inbuf, rpc, numInvoke, notified, isClosed, apc, jobQ, dpc, dj, spc, expired, lateWrite>>
-Expire == /\ spc = "polling" /\ ~expired /\ expired' = TRUE
+Expire(k) == /\ spc[k] = "polling" /\ ~expired[k] /\ expired' = [expired EXCEPT ![k] = TRUE]
           /\ UNCHANGED <<hr, st, inbuf, rpc, sock, numInvoke, notified, isClosed, apc, jobQ, dpc, dj, spc, lateWrite>>
-ShutdownReturn == /\ spc = "polling" /\ (AllSocksClosed \/ expired) /\ spc' = "returned"
+ShutdownReturn(k) == /\ spc[k] = "polling" /\ (AllSocksClosed \/ expired[k]) /\ spc' = [spc EXCEPT ![k] = "returned"]
                   /\ UNCHANGED <<hr, st, inbuf, rpc, sock, numInvoke, notified, isClosed, apc, jobQ, dpc, dj, expired, lateWrite>>
 Server == \/ \E c \in Conns : RecvRead(c) \/ Hand(c) \/ RecvReturn(c) \/ RecvClose(c)
           \/ \E r \in Reqs : Invoke(r) \/ Write(r)
           \/ DTake \/ DHand \/ AcceptExit \/ PoolStop \/ PoolDead \/ NoPoolReleased \/ Notify
           \/ \E c \in Conns : PollerClose(c)
-Next == Server \/ (\E r \in Reqs : ClientSend(r)) \/ ShutdownStart \/ Expire \/ ShutdownReturn
-Spec == Init /\ [][Next]_vars /\ WF_vars(Server) /\ WF_vars(ShutdownReturn)
+Next == Server \/ (\E r \in Reqs : ClientSend(r)) \/ \E k \in Calls : ShutdownStart(k) \/ Expire(k) \/ ShutdownReturn(k)
+Spec == Init /\ [][Next]_vars /\ WF_vars(Server) /\ \A k \in Calls : WF_vars(ShutdownReturn(k))
 
 \* ---------------------------------------------------------------- properties (C12)
 WasRead(r) == st[r] \in {"read", "running", "invoked", "written"}
@@ -119,10 +124,10 @@ TypeOK == /\ \A c \in Conns : numInvoke[c] = Cardinality({r \in Reqs : ConnOf[r]
 ReadImpliesAnswered == \A r \in Reqs : (sock[ConnOf[r]] = "closed" /\ WasRead(r)) => st[r] = "written"
 NoLateWrite == ~lateWrite
 \* the poller returns only when every connection has drained, or its context expired
-ReturnsWhenDrained == spc = "returned" => (AllSocksClosed \/ expired)
+ReturnsWhenDrained == \A k \in Calls : spc[k] = "returned" => (AllSocksClosed \/ expired[k])
 \* progress: what has been read is eventually answered; with a live context Shutdown returns because everything drained
 ReadGetsAnswered == \A r \in Reqs : WasRead(r) ~> (st[r] = "written")
-ShutdownDrains == (spc = "polling") ~> (AllSocksClosed \/ expired)
+ShutdownDrains == \A k \in Calls : (spc[k] = "polling") ~> (AllSocksClosed \/ expired[k])
 \* every connection open when shutdown begins is sent the close message before it is closed
-Notified == \A c \in Conns : (sock[c] = "closed" /\ spc # "idle") => notified[c]
+Notified == \A c \in Conns : (sock[c] = "closed" /\ Begun) => notified[c]
 =============================================================================
